@@ -114,7 +114,7 @@ Definition outcome_code (c : option pc) : Z :=
 (* peer stream index reached by an op, for the pairing check: (kind, stream) *)
 Definition outcome_stream (c : option pc) : Z :=
   match c with
-  | Some (Done (AccOk _ i)) | Some (Done (DialOk _ i)) => Z.of_nat i
+  | Some (Done (AccOk _ i)) | Some (Done (DialOk _ i)) | Some (Done (Sent _ i)) => Z.of_nat i
   | _ => (-1)%Z
   end.
 
@@ -174,6 +174,19 @@ Fixpoint same_partition (a b : list Z) : bool :=
   | _, _ => false
   end.
 
+(* "issued within the pending window of each other, in either order, both succeed": an id with exactly one
+   sender-side and one taker-side call, at most 4 s apart, must have both calls succeed ([okc] says which
+   outcome codes count as success) *)
+Definition count_id (evs : list (N * op)) (n : N) : nat := length (filter (fun e => N.eqb (ev_id e) n) evs).
+Definition tdiff (a b : N) : N := if N.leb a b then (b - a)%N else (a - b)%N.
+Definition window_ok (okc : Z -> bool) (evs : list (N * op)) (outs : list (Z * Z)) : bool :=
+  let eo := combine evs outs in
+  forallb (fun x => forallb (fun y =>
+      let '(e1, o1) := x in let '(e2, o2) := y in
+      if N.eqb (ev_id e1) (ev_id e2) && ev_is_dial e1 && negb (ev_is_dial e2) && Nat.eqb (count_id evs (ev_id e1)) 2
+         && N.leb (tdiff (fst e1) (fst e2)) 4000
+      then okc (fst o1) && okc (fst o2) else true) eo) eo.
+
 (* input: (((time kind id)...) horizon) ; obs: (((outcome token)...) wedged leftover_goroutines) *)
 Definition check_muxtimed (P : params) (inp obs : V) : verdict :=
   match inp, obs with
@@ -188,11 +201,54 @@ Definition check_muxtimed (P : params) (inp obs : V) : verdict :=
              (* property oracle (C06 routing + C09 liveness): connections pair Dial(n) with Accept(n) only;
                 nothing is still blocked at the horizon (code 0); bulk data on a connection arrives complete (code 9 = it did not);
                 the broker is not wedged; no broker goroutine is left *)
-             v_oracle_impl := negb wedge && forallb (fun o => negb (Z.eqb (fst o) 0) && negb (Z.eqb (fst o) 9)) outs && Z.eqb leftover 0 && pair_ids_ok evs outs;
+             v_oracle_impl := negb wedge && forallb (fun o => negb (Z.eqb (fst o) 0) && negb (Z.eqb (fst o) 9)) outs && Z.eqb leftover 0 && pair_ids_ok evs outs &&
+                              window_ok (fun c => Z.eqb c 1 || Z.eqb c 3) evs outs;
              v_oracle_model := negb mw && forallb (fun o => negb (Z.eqb (fst o) 0)) m && pair_ids_ok evs m;
              v_model_obs := VL [VL (map (fun o => VL [VI (fst o); VI (snd o)]) m); vbool mw];
              v_branch := VL (map (fun o => VI (fst o)) m) |}
       | _, _, _ => bad_case
+      end
+  | _, _ => bad_case
+  end.
+
+(* ---- the gRPC broker (family "grpcbroker"/"grpcmux"): one direction per line.
+   input: (((time kind id)...) horizon mux) with kind 0 = GRPCBroker.Accept (the SENDER of the info, model OpDial),
+   kind 1 = GRPCBroker.Dial + first call (the TAKER, model OpAccept);
+   obs: (((outcome token)...) main_ok): outcome 5 = accepted/sent, 1 = dial + call ok (token = id answered), 2 = dial failed *)
+Definition grpc_outcome_code (c : option pc) : Z :=
+  (match c with
+  | Some (Done (Sent _ _)) => 5
+  | Some (Done (AccOk _ _)) => 1
+  | Some (Done (AccTimeout _)) => 2
+  | _ => 0
+  end)%Z.
+
+Definition timed_history_grpc (P : params) (evs : list (N * op)) (horizon : N) : list (Z * Z) :=
+  let x0 := {| ts := match step P init (Call OpRun) with Some s => s | None => init end; born := []; now := 0 |} in
+  let '(x1, tids) := run_events P x0 evs [] in
+  let x2 := advance 400 P x1 horizon in
+  map (fun t => (grpc_outcome_code (tlookup (thr (ts x2)) t), outcome_stream (tlookup (thr (ts x2)) t))) tids.
+
+Definition check_grpctimed (P : params) (inp obs : V) : verdict :=
+  match inp, obs with
+  | VL [VL evs; VI hz; mux], VL [VL outs; VI main_ok] =>
+      match omap devent evs,
+            omap (fun v => match v with VL [VI o; VI tok] => Some (o, tok) | _ => None end) outs with
+      | Some evs, Some outs =>
+          let m := timed_history_grpc P evs (Z.to_N hz) in
+          {| v_decoded := true;
+             v_agree := listZ_eqb (map fst m) (map fst outs) && same_partition (map snd m) (map snd outs) && Z.eqb main_ok 1;
+             (* property oracle (C07/C08 routing): a Dial(n) that got an answer was answered by the server accepted on n;
+                nothing is still blocked at the horizon; the main connection keeps working *)
+             v_oracle_impl := Z.eqb main_ok 1 && forallb (fun o => negb (Z.eqb (fst o) 0)) outs &&
+                              forallb (fun eo => match eo with
+                                                 | (e, (o, tok)) => if Z.eqb o 1 then Z.eqb tok (Z.of_N (ev_id e)) else true
+                                                 end) (combine evs outs) &&
+                              window_ok (fun c => Z.eqb c 1 || Z.eqb c 5) evs outs;
+             v_oracle_model := forallb (fun o => negb (Z.eqb (fst o) 0)) m;
+             v_model_obs := VL [VL (map (fun o => VL [VI (fst o); VI (snd o)]) m); VI 1%Z];
+             v_branch := VL (map (fun o => VI (fst o)) m) |}
+      | _, _ => bad_case
       end
   | _, _ => bad_case
   end.
